@@ -87,13 +87,8 @@ static void ledger_peak_restart(void)
     l_peak_tot = l_live_tot;
 }
 
-static void ledger_add(void *p, size_t sz)
+static void ledger_insert(void *p, uint32_t sz, int cls)
 {
-    if (lused > LSZ / 2) {
-        l_overflow = 1;
-        return;
-    }
-    int cls = l_crypto ? 1 : 0;
     uint32_t h = lhash(p);
     for (;;) {
         struct lent *e = &ltab[h];
@@ -101,12 +96,44 @@ static void ledger_add(void *p, size_t sz)
             if ((e->gc >> 1) != lgen)
                 lused++;
             e->p = p;
-            e->sz = (uint32_t)sz;
+            e->sz = sz;
             e->gc = lgen << 1 | (uint32_t)cls;
-            break;
+            return;
         }
         h = (h + 1) & (LSZ - 1);
     }
+}
+
+/* too many slots touched in this generation (tombstones of a long case): re-insert the live entries into a
+   fresh generation */
+static void ledger_compact(void)
+{
+    static struct lent tmp[LSZ / 4];
+    uint32_t n = 0;
+    for (uint32_t i = 0; i < LSZ; i++)
+        if ((ltab[i].gc >> 1) == lgen && ltab[i].p != LTOMB) {
+            if (n == LSZ / 4) {
+                l_overflow = 1;
+                return;
+            }
+            tmp[n++] = ltab[i];
+        }
+    lgen++;
+    lused = 0;
+    for (uint32_t i = 0; i < n; i++)
+        ledger_insert(tmp[i].p, tmp[i].sz, (int)(tmp[i].gc & 1));
+}
+
+static void ledger_add(void *p, size_t sz)
+{
+    if (lused > LSZ / 2) {
+        if (!l_overflow)
+            ledger_compact();
+        if (l_overflow)
+            return;
+    }
+    int cls = l_crypto ? 1 : 0;
+    ledger_insert(p, (uint32_t)sz, cls);
     l_live[cls] += (int64_t)sz;
     l_live_tot += (int64_t)sz;
     if (l_live[cls] > l_peak[cls])
@@ -875,14 +902,25 @@ static struct xcm_attr_map *mk_attrs(void)
     return m;
 }
 
+static int g_stopfeed;
+static int g_term;              /* a terminal result has been seen */
+
 static int raw_send_all(const unsigned char *b, size_t n)
 {
+    if (g_stopfeed)
+        return -1;
     size_t off = 0;
     while (off < n) {
         ssize_t w = send(g_raw, b + off, n - off, MSG_NOSIGNAL);
         if (w <= 0) {
             if (w < 0 && (errno == EPIPE || errno == ECONNRESET))
                 return -1;      /* the XCM side is gone; nothing more can be said to it */
+            if (w < 0 && errno == EAGAIN && g_term) {
+                /* the receiver has reported a terminal condition and reads no more: a real sender would block
+                   here for good; the rest of the stream stays unsent */
+                g_stopfeed = 1;
+                return -1;
+            }
             internal("raw send: %s after %zu of %zu bytes", errname(errno), off, n);
             return -1;
         }
@@ -1151,7 +1189,6 @@ static int g_nev;
 static int g_ndeliv;            /* messages (messaging) / chunks (bytestream) delivered */
 static size_t g_bs_pos;         /* bytestream: bytes received so far */
 static size_t g_fed;            /* plaintext stream bytes handed to the wire so far */
-static int g_term;              /* a terminal result has been seen */
 static const unsigned char *g_exp;   /* expected plaintext */
 static size_t g_exp_n;
 static struct ref g_ref;
@@ -1463,7 +1500,7 @@ static void judge_final(int peer_open, int must_all, int send_rc, int send_errno
 
 static void case_reset(void)
 {
-    g_nev = g_ndeliv = g_term = g_eproto_reported = 0;
+    g_nev = g_ndeliv = g_term = g_eproto_reported = g_stopfeed = 0;
     g_bs_pos = g_fed = 0;
     g_case_bad = 0;
     g_mutk = NULL;
